@@ -40,9 +40,17 @@ def _load():
 
 
 def match(prop, facet, case, kind, msg, data):
+    """Predicates live next to the check: vf/props/<id>.py may define FINDINGS = {key: predicate}."""
     _load()
-    for key in _active.get(prop, ()):
-        pred = PREDICATES.get(key)
+    keys = _active.get(prop, ())
+    if not keys:
+        return None
+    import importlib
+
+    mod = importlib.import_module(f"vf.props.{prop.lower()}")
+    local = getattr(mod, "FINDINGS", {})
+    for key in keys:
+        pred = local.get(key) or PREDICATES.get(key)
         if pred and pred(facet, case, kind, msg, data):
             return key
     return None
